@@ -57,6 +57,7 @@ func (h ErrorHandler) ServeHTTP(w http.ResponseWriter, r *http.Request) (int, er
 			// means the response has already been written: then the
 			// error can only be logged)
 			w.Header().Del("Content-Length") // possibly announced by the handler that failed
+			w.Header().Del("Content-Encoding")
 			w.Header().Set("Content-Type", "text/plain; charset=utf-8")
 			w.WriteHeader(status)
 			fmt.Fprintln(w, errMsg)
@@ -95,6 +96,7 @@ func (h ErrorHandler) errorPage(w http.ResponseWriter, r *http.Request, code int
 		}
 		// Copy the page body into the response
 		w.Header().Del("Content-Length") // possibly announced by the handler that failed
+		w.Header().Del("Content-Encoding")
 		w.Header().Set("Content-Type", contentType)
 		w.WriteHeader(code)
 		_, err = io.Copy(w, errorPage)
